@@ -721,7 +721,24 @@ namespace awkward {
 
       ContentPtr next = content_.get()->carry(nextcarry, true);
 
-      ContentPtr out = next.get()->getitem_next(head, tail, advanced);
+      ContentPtr out;
+      if (advanced.is_empty_advanced()  ||  advanced.length() == 0) {
+        out = next.get()->getitem_next(head, tail, advanced);
+      }
+      else {
+        // the pairing with an earlier index array follows the valid entries
+        Index64 nextadvanced(nextcarry.length());
+        int64_t k = 0;
+        for (int64_t i = 0;
+             i < outindex.length()  &&  i < advanced.length();
+             i++) {
+          if (outindex.getitem_at_nowrap(i) >= 0) {
+            nextadvanced.setitem_at_nowrap(k, advanced.getitem_at_nowrap(i));
+            k++;
+          }
+        }
+        out = next.get()->getitem_next(head, tail, nextadvanced);
+      }
       IndexedOptionArray64 out2(identities_, parameters_, outindex, out);
       return out2.simplify_optiontype();
     }
